@@ -225,6 +225,7 @@ def c06(run):
 def c07(run):
     exes = D.build_or_violation(run, ['introspect'])
     if exes: D.run_symx(run, 'C07', exes['introspect'])
+    engine_step(run, 'units', ['C07'], need_factors=True)
     run.rules['symx.C07'] = ('exhaustive: 4 systems x 37 unit types: exact (Fraction) magnitude of the consistent unit vs product of the system base units read from the system abbreviation; '
                              'reverse lookup for all 514 units equals the stated function of the forward table; non-trivial = unit type with non-zero dimensions / unit that is consistent in some system')
     run.assumptions += ['the unit lexicon of DESIGN.md Appendix A']
